@@ -31,8 +31,10 @@ fn range(r: &ast::Range) -> String {
 }
 fn diag(d: &Diagnostic) -> String {
     let rel: Vec<String> = d.related_infos.iter().map(|r| range(&r.range)).collect();
-    format!("{{\"kind\":{},\"range\":{},\"message\":{},\"related\":[{}]}}",
-        esc(match d.kind { DiagnosticKind::Error => "Error", DiagnosticKind::Warning => "Warning" }), range(&d.range), esc(&d.message), rel.join(","))
+    let relm: Vec<String> = d.related_infos.iter().map(|r| esc(&r.message)).collect();
+    format!("{{\"kind\":{},\"range\":{},\"message\":{},\"related\":[{}],\"context\":{},\"hint\":{},\"related_messages\":[{}]}}",
+        esc(match d.kind { DiagnosticKind::Error => "Error", DiagnosticKind::Warning => "Warning" }), range(&d.range), esc(&d.message), rel.join(","),
+        opt(&d.context_message), opt(&d.hint), relm.join(","))
 }
 fn diags(v: &[Diagnostic]) -> String { format!("[{}]", v.iter().map(diag).collect::<Vec<_>>().join(",")) }
 
